@@ -16,9 +16,10 @@ NAMES = ["a", "b", "c", "ab", "x1", "x2", "b2"]
 REGEXES = ["^x", "a", "^b", "x1|x2", "^.$", "2$", "^(a|c)$", "b"]
 INT_POOL = [-2, -1, 0, 1, 2, 3, 4, 5]
 FLOAT_POOL = [-1.5, -1.0, 0.0, 0.5, 1.0, 1.5, 2.0, 3.0]
-STR_POOL = ["a", "b", "ab", "ba", "", "aa", "abc", "B", "cb"]
+STR_POOL = ["a", "b", "ab", "ba", "", "aa", "abc", "B", "cb", "a1", "a12", "a b"]
 DAY_POOL = [0, 1, 2, 3, 4, 5]
-PATTERNS = ["a", "^a", "a|b", "[ab]+", "b$", ".", "^(a|b)$", "x?", "^a.*c$", "(ab)+"]
+PATTERNS = ["a", "^a", "a|b", "[ab]+", "b$", ".", "^(a|b)$", "x?", "^a.*c$", "(ab)+",
+            "\\d", "\\d\\d", "\\s", "\\w\\w", "a\\.b"]  # (classes / escapes spelled with a backslash only)
 
 PHYS_WEIGHTED = (["int64"] * 5 + ["float64"] * 5 + ["object"] * 4 + ["bool"] * 2 + ["datetime64[ns]"] * 2
                  + ["int32", "float32", "Int64", "string"])
